@@ -30,7 +30,7 @@ COMPONENTS = {"real": ["TradingEnv", "Transmitter", "Broker", "Exchange", "IStat
               "harness": ["seeded call-level scheduler", "recording observers", "fault ops (clock write, PRNG draw)"], "stub": []}
 PROBE_FLOORS = {"two_chain_envs_different_leads": 8, "prefix_malformed_action": 34, "prefix_missing_price": 3, "prefix_ruin": 5,
                 "prefix_abandoned_at_step_0": 18, "clock_left_in_future_by_prefix": 82, "interleaved_envs_ge_2": 59,
-                "foreign_clock_write": 47, "foreign_prng_draw": 50, "prefix_on_other_fold": 6, "timesteps_without_events": 14, "prefix_observer_crash_fired": 23, "observer_crash_during_reset": 16, "observer_crash_during_step": 8}
+                "foreign_clock_write": 47, "foreign_prng_draw": 50, "prefix_on_other_fold": 6, "timesteps_without_events": 14, "prefix_observer_crash_fired": 23, "two_envs_sharing_the_default_reward_object": 4, "observer_crash_during_reset": 16, "observer_crash_during_step": 8}
 
 PROFILE = {
     "n_min": 3, "n_max": 9, "n_long": 16, "p_long": 0.05, "c_min": 1, "c_max": 3, "p_bar": 1.0, "extras_max": 6,
@@ -43,6 +43,8 @@ PROFILE = {
 def gen_plain_env(rng):
     env = gen_epi.gen_env(rng, PROFILE)
     env["state"] = {"type": "rec", "feature": True, "k": rng.randint(1, 4)}
+    if rng.random() < 0.4:
+        env["reward"] = "default"       # built without reward=: the constructor's default object, shared process-wide
     meta = {"kind": "plain", "late": None, "shock": None, "fold": rng.choice(sorted(env["folds"])) if env.get("folds") else None}
     grid = [core.parse_t(x) for x in env["grid"]]
     n = len(grid)
@@ -389,6 +391,8 @@ def execute(scenario):
                 if prev_last is not None and first_ref_now is not None and prev_last > first_ref_now:
                     probe("clock_left_in_future_by_prefix")
     kinds = scenario["meta"]["kinds"]
+    if sum(1 for e in scenario["envs"] if e.get("reward") == "default") >= 2:
+        probe("two_envs_sharing_the_default_reward_object")
     if n_env >= 2:
         probe("interleaved_envs_ge_2")
         if kinds.count("chain") >= 2:
